@@ -1,4 +1,370 @@
-import OtelVerif.Model.C10
-/-! C10 property theorems (stub) -/
+import OtelVerif.Lemmas.C10
+/-!
+# C10 — components start downstream-first, stop upstream-first, each exactly once
+
+Model: `Model/C10.lean` (mirror of `Graph.StartAll` — with receivers started last, the repaired code —
+`Graph.ShutdownAll`, `Extensions.Start/Shutdown`, `Service.Start/Shutdown`, the collector's
+shutdown-after-failed-start, `sharedcomponent`), over the graph model of C09.
+
+Every theorem quantifies over every configuration, every extension list with dependencies, **every** order
+`topo.Sort` may return (`Sys.Admissible`: duplicate-free, complete, every edge forward — nothing else is assumed
+about gonum) and every choice of failing components (`failS`, `failT` arbitrary predicates).
+-/
 namespace OtelVerif.C10
+open OtelVerif.C09
+
+/-- the three `topo.Sort` results are topological orders of what they sort -/
+structure Sys.Admissible (sys : Sys) : Prop where
+  topoStart : IsTopo (nodes sys.cfg) (edges sys.cfg) sys.gorderStart
+  topoStop : IsTopo (nodes sys.cfg) (edges sys.cfg) sys.gorderStop
+  topoExt : IsTopo (sys.exts.map (·.id)) (extEdges sys.exts) sys.eorder
+
+/-- the whole intended start sequence -/
+def startPlanAll (sys : Sys) : List Comp := sys.eorder.map Comp.ext ++ startPlan sys.gorderStart
+
+theorem startPlanAll_nodup {sys : Sys} (h : sys.Admissible) : (startPlanAll sys).Nodup :=
+  nodup_plan_append h.topoExt.nodup (nodup_startPlan h.topoStart.nodup)
+    (fun c hc => by obtain ⟨n, _, _, rfl⟩ := mem_startPlan.mp hc; exact ⟨n, rfl⟩)
+
+theorem starts_prefix (sys : Sys) (failS : Comp → Bool) :
+    ∃ suf, (serviceStart sys failS).map (·.1) ++ suf = startPlanAll sys := by
+  rw [serviceStart_eq]; exact runStarts_prefix failS _
+
+/-- what was planned to happen earlier did happen earlier, for anything that was started -/
+theorem before_starts {sys : Sys} (h : sys.Admissible) (failS : Comp → Bool) {x y : Comp}
+    (hy : y ∈ (serviceStart sys failS).map (·.1)) (hb : Before (startPlanAll sys) x y) :
+    Before ((serviceStart sys failS).map (·.1)) x y := by
+  obtain ⟨suf, hs⟩ := starts_prefix sys failS
+  have hnd := startPlanAll_nodup h
+  rw [← hs] at hnd hb
+  exact before_prefix hnd hy hb
+
+theorem node_started_mem {sys : Sys} (failS : Comp → Bool) {n : Node}
+    (hn : Comp.node n ∈ (serviceStart sys failS).map (·.1)) : Comp.node n ∈ startPlan sys.gorderStart := by
+  obtain ⟨suf, hs⟩ := starts_prefix sys failS
+  have : Comp.node n ∈ startPlanAll sys := by rw [← hs]; exact List.mem_append_left _ hn
+  simp only [startPlanAll, List.mem_append, List.mem_map] at this
+  rcases this with ⟨e, _, he⟩ | h
+  · cases he
+  · exact h
+
+/-- in the graph's start plan, whoever `b` sends data to comes before `b` -/
+theorem plan_downstream_first {sys : Sys} (h : sys.Admissible) {a b : Node}
+    (hb : Comp.node b ∈ startPlan sys.gorderStart) (hab : a ∈ compSucc (edges sys.cfg) b) :
+    Before (startPlan sys.gorderStart) (Comp.node a) (Comp.node b) := by
+  obtain ⟨b', _, hbc, hb'⟩ := mem_startPlan.mp hb
+  injection hb' with hb'
+  subst hb'
+  have hpath := compSucc_path hab
+  have hac := compSucc_isComp hab
+  have hanr := path_target_not_recv hpath
+  have h1 : Before (sys.gorderStart.reverse.filter Node.isComp) a b :=
+    before_filter _ (before_reverse (topo_path h.topoStart hpath)) hac hbc
+  simp only [startPlan]
+  apply before_map
+  cases hbr : isRecvN b with
+  | false =>
+    exact before_append_left _ (before_filter _ h1 (by simp [hanr]) (by simp [hbr]))
+  | true =>
+    exact before_append_mid (List.mem_filter.mpr ⟨h1.mem_left, by simp [hanr]⟩) (List.mem_filter.mpr ⟨h1.mem_right, hbr⟩)
+
+/-! ## start order -/
+
+/-- **start order**: a started pipeline component was started after every component it sends data to; every
+extension before every pipeline component; every extension after the extensions it depends on -/
+theorem C10_start_order (sys : Sys) (h : sys.Admissible) (failS : Comp → Bool) :
+    let st := (serviceStart sys failS).map (·.1)
+    (∀ b a, Comp.node b ∈ st → a ∈ compSucc (edges sys.cfg) b → Before st (Comp.node a) (Comp.node b)) ∧
+    (∀ e n, e ∈ sys.exts → Comp.node n ∈ st → Before st (Comp.ext e.id) (Comp.node n)) ∧
+    (∀ e d, e ∈ sys.exts → d ∈ e.deps → Comp.ext e.id ∈ st → Before st (Comp.ext d) (Comp.ext e.id)) := by
+  refine ⟨fun b a hb hab => ?_, fun e n he hn => ?_, fun e d he hd hs => ?_⟩
+  · exact before_starts h failS hb (before_append_right _ (plan_downstream_first h (node_started_mem failS hb) hab))
+  · refine before_starts h failS hn (before_append_mid ?_ (node_started_mem failS hn))
+    exact List.mem_map.mpr ⟨e.id, (h.topoExt.mem _).mpr (List.mem_map.mpr ⟨e, he, rfl⟩), rfl⟩
+  · refine before_starts h failS hs (before_append_left _ (before_map _ (h.topoExt.fwd d e.id ?_)))
+    simp only [extEdges, List.mem_flatMap, List.mem_map]
+    exact ⟨e, he, d, hd, rfl⟩
+
+/-- **shared receivers** (repaired `StartAll`): when any receiver instance starts — in particular the first
+instance of a receiver shared by several signals, which starts the one underlying component — every
+component that *any* receiver instance sends data to has already started -/
+theorem C10_receiver_starts_after_all_downstream (sys : Sys) (h : sys.Admissible) (failS : Comp → Bool)
+    (r r' a : Node) (hr : isRecvN r = true) (hs : Comp.node r ∈ (serviceStart sys failS).map (·.1))
+    (ha : a ∈ compSucc (edges sys.cfg) r') :
+    Before ((serviceStart sys failS).map (·.1)) (Comp.node a) (Comp.node r) := by
+  refine before_starts h failS hs (before_append_right _ ?_)
+  obtain ⟨r0, hr0, hrc, hr0'⟩ := mem_startPlan.mp (node_started_mem failS hs)
+  injection hr0' with hr0'
+  subst hr0'
+  have hpath := compSucc_path ha
+  have hamem : a ∈ sys.gorderStart := by
+    have : a ∈ nodes sys.cfg := by
+      have aux : ∀ {x y : Node}, Path (edges sys.cfg) x y → y ∈ nodes sys.cfg := by
+        intro x y hp
+        induction hp with
+        | single h => exact edge_target_mem h
+        | cons _ _ ih => exact ih
+      exact aux hpath
+    exact (h.topoStart.mem a).mpr this
+  simp only [startPlan]
+  apply before_map
+  refine before_append_mid (List.mem_filter.mpr ⟨List.mem_filter.mpr ⟨List.mem_reverse.mpr hamem, compSucc_isComp ha⟩, ?_⟩)
+    (List.mem_filter.mpr ⟨List.mem_filter.mpr ⟨List.mem_reverse.mpr hr0, hrc⟩, hr⟩)
+  simp [path_target_not_recv hpath]
+
+/-! ## stop order -/
+
+theorem stops_eq (sys : Sys) (failT : Comp → Bool) :
+    (serviceShutdown sys failT).map (·.1) = compsOf sys.gorderStop ++ sys.eorder.reverse.map Comp.ext := by
+  simp [serviceShutdown, runStops, List.map_map, Function.comp_def]
+
+/-- **stop order**: a component is shut down before every component it sends data to; extensions after every
+pipeline component; an extension before the extensions it depends on — whatever fails -/
+theorem C10_stop_order (sys : Sys) (h : sys.Admissible) (failT : Comp → Bool) :
+    let sp := (serviceShutdown sys failT).map (·.1)
+    (∀ b a, b.isComp = true → a ∈ compSucc (edges sys.cfg) b → Before sp (Comp.node b) (Comp.node a)) ∧
+    (∀ e n, e ∈ sys.exts → n ∈ nodes sys.cfg → n.isComp = true → Before sp (Comp.node n) (Comp.ext e.id)) ∧
+    (∀ e d, e ∈ sys.exts → d ∈ e.deps → Before sp (Comp.ext e.id) (Comp.ext d)) := by
+  simp only [stops_eq]
+  refine ⟨fun b a hb hab => ?_, fun e n he hn hc => ?_, fun e d he hd => ?_⟩
+  · exact before_append_left _ (before_map _ (before_filter _ (topo_path h.topoStop (compSucc_path hab)) hb (compSucc_isComp hab)))
+  · refine before_append_mid (mem_compsOf.mpr ⟨n, (h.topoStop.mem n).mpr hn, hc, rfl⟩) ?_
+    exact List.mem_map.mpr ⟨e.id, List.mem_reverse.mpr ((h.topoExt.mem _).mpr (List.mem_map.mpr ⟨e, he, rfl⟩)), rfl⟩
+  · refine before_append_right _ (before_map _ (before_reverse (h.topoExt.fwd d e.id ?_)))
+    simp only [extEdges, List.mem_flatMap, List.mem_map]
+    exact ⟨e, he, d, hd, rfl⟩
+
+/-! ## exactly once -/
+
+/-- **exactly once**: whatever fails in `Start` or `Shutdown`, no component is started twice and every
+component of the service — pipeline components and extensions, started or not — is shut down exactly once -/
+theorem C10_exactly_once (sys : Sys) (h : sys.Admissible) (failS failT : Comp → Bool) :
+    let o := run sys failS failT
+    (o.starts.map (·.1)).Nodup ∧ (o.stops.map (·.1)).Nodup ∧ (∀ c, c ∈ o.stops.map (·.1) ↔ c ∈ allComps sys) ∧
+    (∀ c, c ∈ o.starts.map (·.1) → c ∈ allComps sys) := by
+  have hmemC : ∀ c, c ∈ compsOf sys.gorderStop ↔ c ∈ ((nodes sys.cfg).filter Node.isComp).map Comp.node := by
+    intro c
+    rw [mem_compsOf]
+    simp only [List.mem_map, List.mem_filter]
+    constructor
+    · rintro ⟨n, h1, h2, rfl⟩; exact ⟨n, ⟨(h.topoStop.mem n).mp h1, h2⟩, rfl⟩
+    · rintro ⟨n, ⟨h1, h2⟩, rfl⟩; exact ⟨n, (h.topoStop.mem n).mpr h1, h2, rfl⟩
+  have hmemE : ∀ c, c ∈ sys.eorder.reverse.map Comp.ext ↔ c ∈ sys.exts.map (fun e => Comp.ext e.id) := by
+    intro c
+    simp only [List.mem_map, List.mem_reverse]
+    constructor
+    · rintro ⟨e, he, rfl⟩
+      obtain ⟨x, hx, rfl⟩ := List.mem_map.mp ((h.topoExt.mem e).mp he)
+      exact ⟨x, hx, rfl⟩
+    · rintro ⟨x, hx, rfl⟩
+      exact ⟨x.id, (h.topoExt.mem _).mpr (List.mem_map.mpr ⟨x, hx, rfl⟩), rfl⟩
+  refine ⟨?_, ?_, ?_, ?_⟩
+  · obtain ⟨suf, hs⟩ := starts_prefix sys failS
+    have := startPlanAll_nodup h
+    rw [← hs] at this
+    exact (List.nodup_append.mp this).1
+  · show ((serviceShutdown sys failT).map (·.1)).Nodup
+    rw [stops_eq, List.nodup_append]
+    refine ⟨nodup_compsOf h.topoStop.nodup, nodup_map_ext ((List.reverse_perm _).nodup_iff.mpr h.topoExt.nodup), ?_⟩
+    intro x hx y hy hxy
+    subst hxy
+    obtain ⟨n, _, _, rfl⟩ := mem_compsOf.mp hx
+    obtain ⟨e, _, he⟩ := List.mem_map.mp hy
+    cases he
+  · intro c
+    show c ∈ (serviceShutdown sys failT).map (·.1) ↔ _
+    rw [stops_eq]
+    simp only [allComps, List.mem_append, hmemC, hmemE]
+  · intro c hc
+    obtain ⟨suf, hs⟩ := starts_prefix sys failS
+    have hc' : c ∈ startPlanAll sys := by rw [← hs]; exact List.mem_append_left _ hc
+    simp only [startPlanAll, List.mem_append] at hc'
+    simp only [allComps, List.mem_append]
+    rcases hc' with hc' | hc'
+    · right
+      obtain ⟨e, he, rfl⟩ := List.mem_map.mp hc'
+      obtain ⟨x, hx, rfl⟩ := List.mem_map.mp ((h.topoExt.mem e).mp he)
+      exact List.mem_map.mpr ⟨x, hx, rfl⟩
+    · left
+      obtain ⟨n, h1, h2, rfl⟩ := mem_startPlan.mp hc'
+      exact List.mem_map.mpr ⟨n, List.mem_filter.mpr ⟨(h.topoStart.mem n).mp h1, h2⟩, rfl⟩
+
+/-! ## failures -/
+
+/-- **start failure**: nothing is started after the component whose `Start` failed; `Start` reports failure
+exactly when some planned component fails; a successful `Start` started every component; each recorded
+result is the component's own; (by `C10_exactly_once` the following `Shutdown` still reaches everything) -/
+theorem C10_start_failure (sys : Sys) (h : sys.Admissible) (failS failT : Comp → Bool) :
+    let o := run sys failS failT
+    failedStartIsLast o.starts = true ∧
+    (o.startOk = true ↔ ∀ c, c ∈ allComps sys → failS c = false) ∧
+    (o.startOk = true → ∀ c, c ∈ allComps sys → c ∈ o.starts.map (·.1)) ∧
+    (∀ e, e ∈ o.starts → e.2 = !(failS e.1)) := by
+  have hplan : ∀ c, c ∈ startPlanAll sys ↔ c ∈ allComps sys := by
+    intro c
+    simp only [startPlanAll, allComps, List.mem_append]
+    constructor
+    · rintro (hc | hc)
+      · right
+        obtain ⟨e, he, rfl⟩ := List.mem_map.mp hc
+        obtain ⟨x, hx, rfl⟩ := List.mem_map.mp ((h.topoExt.mem e).mp he)
+        exact List.mem_map.mpr ⟨x, hx, rfl⟩
+      · left
+        obtain ⟨n, h1, h2, rfl⟩ := mem_startPlan.mp hc
+        exact List.mem_map.mpr ⟨n, List.mem_filter.mpr ⟨(h.topoStart.mem n).mp h1, h2⟩, rfl⟩
+    · rintro (hc | hc)
+      · right
+        obtain ⟨n, hn, rfl⟩ := List.mem_map.mp hc
+        obtain ⟨h1, h2⟩ := List.mem_filter.mp hn
+        exact mem_startPlan.mpr ⟨n, (h.topoStart.mem n).mpr h1, h2, rfl⟩
+      · left
+        obtain ⟨x, hx, rfl⟩ := List.mem_map.mp hc
+        exact List.mem_map.mpr ⟨x.id, (h.topoExt.mem _).mpr (List.mem_map.mpr ⟨x, hx, rfl⟩), rfl⟩
+  refine ⟨?_, ?_, ?_, ?_⟩
+  · show failedStartIsLast (serviceStart sys failS) = true
+    rw [serviceStart_eq]; exact failedStartIsLast_runStarts _ _
+  · show allOk (serviceStart sys failS) = true ↔ _
+    rw [serviceStart_eq, runStarts_allOk]
+    exact ⟨fun hh c hc => hh c ((hplan c).mpr hc), fun hh c hc => hh c ((hplan c).mp hc)⟩
+  · intro hok c hc
+    show c ∈ (serviceStart sys failS).map (·.1)
+    have hok' : allOk (serviceStart sys failS) = true := hok
+    rw [serviceStart_eq] at hok' ⊢
+    rw [runStarts_ok_all _ _ hok']
+    exact (hplan c).mpr hc
+  · intro e he
+    have he' : e ∈ serviceStart sys failS := he
+    rw [serviceStart_eq] at he'
+    exact runStarts_flags _ _ e he'
+
+/-- **shutdown failure**: a failing `Shutdown` is recorded for that component only and does not keep any other
+component from being shut down (`C10_exactly_once` holds for every `failT`); `Shutdown` reports an error
+exactly when some component's `Shutdown` failed -/
+theorem C10_stop_failure (sys : Sys) (failS failT : Comp → Bool) :
+    let o := run sys failS failT
+    (∀ e, e ∈ o.stops → e.2 = !(failT e.1)) ∧ (o.stopOk = true ↔ ∀ e, e ∈ o.stops → failT e.1 = false) := by
+  have hflags : ∀ e, e ∈ serviceShutdown sys failT → e.2 = !(failT e.1) := by
+    intro e he
+    simp only [serviceShutdown, runStops, List.mem_append, List.mem_map] at he
+    rcases he with ⟨c, _, rfl⟩ | ⟨c, _, rfl⟩ <;> rfl
+  refine ⟨hflags, ?_⟩
+  show allOk (serviceShutdown sys failT) = true ↔ _
+  simp only [allOk, List.all_eq_true]
+  constructor
+  · intro hh e he
+    have := hh e he
+    rw [hflags e he] at this
+    simpa using this
+  · intro hh e he
+    rw [hflags e he, hh e he]; rfl
+
+/-! ## shared components -/
+
+theorem shared_count (s : Shared) (calls : List Call) :
+    (s.runCalls calls).count .start = (if s.started = false ∧ Call.start ∈ calls then 1 else 0) ∧
+    (s.runCalls calls).count .stop = (if s.stopped = false ∧ Call.stop ∈ calls then 1 else 0) := by
+  induction calls generalizing s with
+  | nil => simp [Shared.runCalls]
+  | cons c rest ih =>
+    obtain ⟨st, sp⟩ := s
+    cases c <;> cases st <;> cases sp <;>
+      simp [Shared.runCalls, Shared.step, ih, List.count_cons]
+
+/-- **shared once**: however many per-signal instances exist and in whatever order they are started and
+stopped (any sequence of `Start`/`Shutdown` calls on the instances), the underlying component's `Start`
+runs once if any instance is started, its `Shutdown` once if any instance is shut down — never twice -/
+theorem C10_shared_once (calls : List Call) :
+    ((Shared.runCalls {} calls).count .start = if Call.start ∈ calls then 1 else 0) ∧
+    ((Shared.runCalls {} calls).count .stop = if Call.stop ∈ calls then 1 else 0) := by
+  have := shared_count {} calls
+  simpa using this
+
+/-! ## the monitor is sound -/
+
+/-- whatever log the monitor accepts (the implementation's, on every run) satisfies the ordering and
+exactly-once clauses, stated without reference to the monitor -/
+theorem C10_check_sound (sys : Sys) (o : Outcome) (h : check sys o = true) :
+    let st := o.starts.map (·.1)
+    let sp := o.stops.map (·.1)
+    st.Nodup ∧
+    (∀ b a, b ∈ nodes sys.cfg → Comp.node b ∈ st → a ∈ compSucc (edges sys.cfg) b → Before st (Comp.node a) (Comp.node b)) ∧
+    (∀ e c, e ∈ sys.exts → c ∈ st → isNodeC c = true → Before st (Comp.ext e.id) c) ∧
+    (∀ e d, e ∈ sys.exts → d ∈ e.deps → Comp.ext e.id ∈ st → Before st (Comp.ext d) (Comp.ext e.id)) ∧
+    sp.Nodup ∧ (∀ c, c ∈ sp ↔ c ∈ allComps sys) ∧
+    (∀ b a, b ∈ nodes sys.cfg → b.isComp = true → a ∈ compSucc (edges sys.cfg) b → Before sp (Comp.node b) (Comp.node a)) ∧
+    (∀ e n, e ∈ sys.exts → n ∈ nodes sys.cfg → n.isComp = true → Before sp (Comp.node n) (Comp.ext e.id)) ∧
+    (∀ e d, e ∈ sys.exts → d ∈ e.deps → Before sp (Comp.ext e.id) (Comp.ext d)) ∧
+    failedStartIsLast o.starts = true := by
+  simp only [check, checkStarts, checkStops, checkFailures, Bool.and_eq_true] at h
+  obtain ⟨⟨⟨⟨⟨⟨hs1, hs2⟩, hs3⟩, hs4⟩, ⟨⟨⟨ht1, ht2⟩, ht3⟩, ht4⟩⟩, ⟨⟨hf, _⟩, _⟩⟩, _⟩ := h
+  simp only [startsOnce, Bool.and_eq_true] at hs1
+  simp only [startsDownstreamFirst, List.all_eq_true, Bool.or_eq_true, Bool.not_eq_true', decide_eq_false_iff_not] at hs2
+  simp only [startsExtFirst, List.all_eq_true, Bool.or_eq_true, Bool.not_eq_true'] at hs3
+  simp only [startsDepFirst, List.all_eq_true, Bool.or_eq_true, Bool.not_eq_true', decide_eq_false_iff_not] at hs4
+  simp only [stopsExactlyOnce, Bool.and_eq_true, List.all_eq_true, decide_eq_true_eq] at ht1
+  simp only [stopsUpstreamFirst, List.all_eq_true, Bool.or_eq_true, Bool.not_eq_true'] at ht2
+  simp only [stopsExtLast, List.all_eq_true, Bool.or_eq_true, Bool.not_eq_true', List.mem_filter, and_imp] at ht3
+  simp only [stopsDependentFirst, List.all_eq_true] at ht4
+  refine ⟨nodup_of_nodupB hs1.1, ?_, ?_, ?_, nodup_of_nodupB ht1.1.1, ?_, ?_, ?_, ?_, hf⟩
+  · intro b a hb hbs hab
+    rcases hs2 b hb with h' | h'
+    · exact absurd hbs h'
+    · exact before_of_beforeB (h' a hab)
+  · intro e c he hc hn
+    rcases hs3 c hc with h' | h'
+    · rw [hn] at h'; cases h'
+    · exact before_of_beforeB (h' e he)
+  · intro e d he hd hes
+    rcases hs4 e he with h' | h'
+    · exact absurd hes h'
+    · exact before_of_beforeB (h' d hd)
+  · intro c
+    exact ⟨fun hc => ht1.2 c hc, fun hc => ht1.1.2 c hc⟩
+  · intro b a hb hbc hab
+    rcases ht2 b hb with h' | h'
+    · rw [hbc] at h'; cases h'
+    · exact before_of_beforeB (h' a hab)
+  · intro e n he hn hnc
+    have hmem : Comp.ext e.id ∈ o.stops.map (·.1) := ht1.1.2 _ (by
+      simp only [allComps, List.mem_append, List.mem_map]
+      exact Or.inr ⟨e, he, rfl⟩)
+    rcases ht3 _ hmem with h' | h'
+    · cases h'
+    · exact before_of_beforeB (h' n hn hnc)
+  · intro e d he hd
+    exact before_of_beforeB (ht4 e he d hd)
+
+/-! ## non-vacuity -/
+
+/-- traces/0 and traces/1 share receiver 1 and exporter 1; traces/0 also feeds connector 5 into metrics/0 -/
+def exCfg : Cfg :=
+  { conns := [{ id := 5, supp := [(.traces, .metrics)] }],
+    pipes := [{ id := ⟨.traces, 0⟩, recv := [1], procs := [1, 2], exps := [5, 1] },
+              { id := ⟨.traces, 1⟩, recv := [1, 2], procs := [2], exps := [1] },
+              { id := ⟨.metrics, 0⟩, recv := [5], procs := [1], exps := [2] }] }
+
+/-- that service with two extensions (2 depends on 1); orders = one admissible choice -/
+def exSys : Sys :=
+  { cfg := exCfg, exts := [{ id := 2, deps := [1] }, { id := 1, deps := [] }],
+    gorderStart := [Node.recv .traces 2, Node.recv .traces 1, Node.cap ⟨.traces, 1⟩, Node.proc ⟨.traces, 1⟩ 2, Node.fanout ⟨.traces, 1⟩,
+      Node.cap ⟨.traces, 0⟩, Node.proc ⟨.traces, 0⟩ 1, Node.proc ⟨.traces, 0⟩ 2, Node.fanout ⟨.traces, 0⟩, Node.exp .traces 1,
+      Node.conn .traces .metrics 5, Node.cap ⟨.metrics, 0⟩, Node.proc ⟨.metrics, 0⟩ 1, Node.fanout ⟨.metrics, 0⟩, Node.exp .metrics 2],
+    gorderStop := [Node.recv .traces 1, Node.cap ⟨.traces, 0⟩, Node.proc ⟨.traces, 0⟩ 1, Node.proc ⟨.traces, 0⟩ 2, Node.fanout ⟨.traces, 0⟩,
+      Node.conn .traces .metrics 5, Node.cap ⟨.metrics, 0⟩, Node.proc ⟨.metrics, 0⟩ 1, Node.fanout ⟨.metrics, 0⟩, Node.exp .metrics 2,
+      Node.recv .traces 2, Node.cap ⟨.traces, 1⟩, Node.proc ⟨.traces, 1⟩ 2, Node.fanout ⟨.traces, 1⟩, Node.exp .traces 1],
+    eorder := [1, 2] }
+
+/-- the hypotheses of the theorems are met by this system -/
+example : exSys.Admissible :=
+  ⟨isTopo_of_isTopoB (by decide), isTopo_of_isTopoB (by decide), isTopo_of_isTopoB (by decide)⟩
+
+/-- the monitor accepts the model's own run, with a start failure at the connector and a stop failure at extension 1 -/
+example : check exSys (run exSys (fun c => c == Comp.node (Node.conn .traces .metrics 5)) (fun c => c == Comp.ext 1)) = true := by decide
+example : (run exSys (fun c => c == Comp.node (Node.conn .traces .metrics 5)) (fun _ => false)).starts.map (·.1) =
+    [Comp.ext 1, Comp.ext 2, Comp.node (Node.exp .metrics 2), Comp.node (Node.proc ⟨.metrics, 0⟩ 1), Comp.node (Node.conn .traces .metrics 5)] := by decide
+example : check exSys (run exSys (fun _ => false) (fun _ => false)) = true := by decide
+/-- the monitor rejects a log in which a receiver was started before its pipeline's exporter -/
+example : check exSys { (run exSys (fun _ => false) (fun _ => false)) with
+    starts := [(Comp.ext 1, true), (Comp.ext 2, true), (Comp.node (Node.recv .traces 2), true)] } = false := by decide
+
 end OtelVerif.C10
